@@ -88,9 +88,13 @@ def run(chk):
         chk.check(ok, "R2", f"{NET}:Network.notify | callback(can_id, data, timestamp) once each", no.loc(lp), f"loop body {[src(s) for s in lp.body]}")
         chk.check(not [n for n in ast.walk(lp) if isinstance(n, (ast.Break, ast.Return, ast.Continue, ast.If))], "R2",
                   f"{NET}:Network.notify | every subscriber", no.loc(lp), "the dispatch loop can skip subscribers")
-    from ..facts import assigned_targets
-    reb = [n for n in own_nodes(no.node) if isinstance(n, ast.stmt) and {"can_id", "data", "timestamp"} & assigned_targets(n)]
-    chk.check(not reb, "R2", f"{NET}:Network.notify | parameters unchanged", no.loc(), "can_id/data/timestamp reassigned before dispatch")
+    from . import shared as _sh
+    _sh.notify_params_unchanged(chk, "R2")
+    # the scanner sees every dispatched frame: no path through notify() leaves before scanner.on_message_received(can_id)
+    scans = [n for n in fn.cfg.nodes if n.kind == "stmt" and isinstance(n.ast, ast.Expr) and isinstance(n.ast.value, ast.Call) and dotted(n.ast.value.func) == "self.scanner.on_message_received"]
+    chk.floor("R2", len(scans), 1, "scanner hand-off in notify")
+    wit = must_pass(fn.cfg, lambda n: n in scans)
+    chk.check(wit is None, "R2", f"{NET}:Network.notify | the scanner sees every frame", no.loc(), f"a path leaves notify() without scanner.on_message_received(): {path_text(wit) if wit else ''}")
 
     # ------------------------------------------------------------------ R3 pairing
     for rel, cname, floor in ((RN, "RemoteNode", 4), (LN, "LocalNode", 2)):
